@@ -57,7 +57,7 @@ CHECKS["C03"] = dict(
     explanation="bounded symbolic execution; reply accounting on the real MemWaiter protocols' result callbacks",
     assumptions=[],
     harnesses=[dict(pkg="server", name="C03_step", bound=_STEP_BOUND, flags=["-witness", "500"], reach=["end", "queued", "waiter-ended", "expired"]),
-               dict(pkg="server", name="C03_relock", bound="hold by connection A (symbolic Count/Rcount), re-entrant re-lock / update / no-op update of the same LockId by connection B (symbolic Rcount), then 12 s through the real sweeps", flags=["-witness", "5"], reach=["end", "terms-replaced"]),
+               dict(pkg="server", name="C03_relock", bound="hold by connection A (symbolic Count/Rcount), re-entrant re-lock / update / no-op update / keep-the-timing update / keep-the-timing re-lock (unlimited flag + Expried 0xffff) of the same LockId by connection B (symbolic Rcount), then 12 s through the real sweeps; the hold never references a command object the server handed back to a pool", flags=["-witness", "5"], reach=["end", "terms-replaced", "relocked"]),
                dict(pkg="server", name="C05_ms", bound="a queued request with the millisecond flag and T in {1, 500, 2999, 3000, 3300, 7000, 59999} ms; the holder leaves before the slot sweep or never; the recorded sweeper goroutine (checkMillisecondTimeOut) run at its slot time, then T/1000+2 seconds through the real per-second sweeps", flags=[], reach=["end", "granted"], native=False)],
 )
 CHECKS["C04"] = dict(
@@ -401,3 +401,9 @@ CHECKS["C14"]["harnesses"].append(dict(pkg="protocol", name="C14_valueframes", b
 
 _quick("C13", "C13_admincmd", "one administrative text command (ECHO, PING, QUIT, SHOW, CONFIG, CLIENT, FLUSHDB, FLUSHALL, REPLSET, SLAVEOF) with 0..3 arguments, the first two from 19 words / the empty string / 1..2 symbolic ASCII bytes, the third from 5 words / 2 symbolic bytes; server with a held key (value + queued request), a binary and a text connection in the stream table, REPLSET with and without a three-member replica set; INFO, SHUTDOWN, CONFIG GET <name> (package reflect) and the forms that dial another node are left out", ["-witness", "2000"])
 _thorough("C13", "C13_admincmd3", "as C13_admincmd with the third argument from the full alphabet too", ["-witness", "10000"])
+
+_POOLED = "every history of 4 operations on two connections whose command objects come from the connection's own pool (GetLockCommand, as the real protocols do): LOCK on the key as a new hold / re-entry / update with symbolic Count, Rcount, update flag and ordinary or keep-the-timing terms (unlimited flag, Expried 3 / 0xffff), a LOCK on another key with its own symbolic Count, UNLOCK; a shadow list of holds kept from the replies alone; admission rule, holder census, and every hold's LockId and Count against the shadow after each operation"
+_quick("C01", "C01_pooled", _POOLED, ["-witness", "500"], reach=["end", "grant", "grant-shared", "updated", "re-entered"])
+_quick("C03", "C01_pooled", _POOLED, ["-witness", "500"], reach=["end", "grant", "updated", "re-entered"])
+_quick("C19", "C01_pooled", _POOLED + " (server side of RLock / Semaphore re-entry: a connection's next request must not rewrite a hold it took earlier)", ["-witness", "500"], reach=["end", "re-entered"])
+_quick("C02", "C02_bigcancel", "exclusive holder + N in {3,150,300} queued requests (inline slice, its growth, overflow ring), none or one already served; a cancel-wait UNLOCK names the first / second / middle / 256th / 257th / 258th / last queued request: LOCKED_ERROR + UNLOCK_ERROR, WaitCount - 1, request gone; a second cancel is refused and changes nothing; three hand-overs served in arrival order without the cancelled request", ["-witness", "5"], reach=["end", "cancelled"])
